@@ -35,6 +35,12 @@ type Task struct {
 	kill   bool
 	prio   int
 	Steps  int
+	// Solo counts the scheduling steps this task took while no other task could run:
+	// progress that only a blocked or sleeping task (or the clock) could have provided
+	// was not available to it. A task that piles these up inside one call is waiting
+	// for such a party by spinning.
+	Solo    int
+	yielded bool // runtime.Gosched: the others go first
 	// Tag is free for world use (e.g. producer index).
 	Tag int
 }
@@ -112,6 +118,14 @@ type Sim struct {
 	// ClockSkew is added to every clock reading (clock faults).
 	ClockSkew int64
 }
+
+// hosted is set to "1" by the linker in the simulator's worker binary (vcheck builds it
+// with -ldflags -X); it is empty in the pass-through builds (the repository's own tests on
+// the instrumented copy), where goroutines are plain goroutines.
+var hosted string
+
+// Hosted reports whether this is the simulator's worker binary.
+func Hosted() bool { return hosted != "" }
 
 // Deep is set by the worker for the thorough tier: worlds widen their bounds
 // (more tasks, more operations, larger rings).
@@ -421,6 +435,18 @@ func (s *Sim) pick(t *Task) *Task {
 			}
 			run[0] = t
 		}
+		if tIn && len(run) == 1 {
+			t.Solo++
+		}
+		if tIn && t.yielded && len(run) > 1 {
+			// Gosched puts the caller behind every other runnable goroutine
+			for i := 1; i < len(run); i++ {
+				run[i-1] = run[i]
+			}
+			run = run[:len(run)-1]
+			tIn = false
+		}
+		t.yielded = false
 		s.runbuf = run
 		if len(run) == 0 {
 			min := int64(-1)
@@ -530,6 +556,13 @@ func Block(why string, ready func() bool) {
 func Go(f func()) {
 	s := S
 	if s == nil {
+		if hosted != "" {
+			// a goroutine that package initialisation (or code between two runs) wants to
+			// start in the simulator's own process: it would still be running, outside any
+			// baton, when the next simulation begins. It is not started; what it would have
+			// served is rebuilt inside each run (sync.Once is per run).
+			return
+		}
 		go f()
 		return
 	}
